@@ -254,6 +254,8 @@ def run(R, tier):
                 R.count('history-with-failed-generation (not model-compared)')
                 continue
             compare_with_model(R, f'C09_{hi}', S2.alg, S2.regs, wrapper, top, probe2, algs.describe(spec))
+    reused_objects(R, rng, tier)
+    symbolic_calls(R, rng, tier)
     # ---- one thread held inside code generation while another makes the same call ----
     for ti in range(6 if tier == 'quick' else 60):
         held_codegen(R, rng, ti, tier)
@@ -334,6 +336,86 @@ def held_codegen(R, rng, ti, tier):
                         {'algebra': spec, 'held': True, 'warm': [warm[0], warm[1]], 'call': [call[0], call[1]], 'who': who, 'got': str(out), 'fresh': str(ref)},
                         f'{name} with keys {[[k for k, _ in it] for it in call[1]]} called while another thread was generating code for that pattern '
                         f'(after a call with keys {[[k for k, _ in it] for it in warm[1]]}): {who} got {out}, a fresh algebra returns {ref}')
+
+
+def reused_objects(R, rng, tier):
+    """The SAME multivector objects are used again after being updated in place (x[i] = ..., writing into x.values()):
+    every call must return what a fresh algebra returns for fresh operands holding the current values - nothing may be
+    remembered on the operand objects."""
+    import numpy as np
+    from kingdon import MultiVector
+    unary = ['normsq', 'inv', 'reverse', 'conjugate', 'neg', 'norm', 'normalized', 'hodge', 'outerexp', 'sqrt']
+    binary = ['gp', 'op', 'sw', 'proj', 'add', 'sub', 'ip']
+    for it in range(10 if tier == 'quick' else 150):
+        d = rng.choice((2, 3, 3))
+        spec = {'sig': [rng.choice((1, 1, -1)) for _ in range(d)]}
+        alg = algs.make_impl(spec)
+        canon = [int(k) for k in alg.canon2bin.values()]
+        ks = tuple([0] + rng.sample(canon[1:], rng.randint(1, 2)))
+        n = 3
+        def fresh_vals():
+            return [[float(rng.randint(5, 9))] * n] + [[float(rng.randint(-2, 2)) for _ in range(n)] for _ in ks[1:]]
+        arr = rng.random() < 0.5
+        vals = fresh_vals()
+        x = MultiVector.fromkeysvalues(alg, ks, np.array(vals) if arr else [np.array(v) for v in vals])
+        y = MultiVector.fromkeysvalues(alg, ks, np.array(fresh_vals()))
+        ops = rng.sample(unary, 3) + rng.sample(binary, 2)
+        def run_ops(a, xx, yy):
+            out = {}
+            for op in ops:
+                try:
+                    r = getattr(xx, op)() if op in unary else getattr(a, op)(xx, yy)
+                    out[op] = ('ok', [(int(k), np.asarray(v, dtype=float).tolist()) for k, v in zip(r.keys(), r.values())])
+                except Exception as e:  # noqa
+                    out[op] = ('err', type(e).__name__)
+            return out
+        run_ops(alg, x, y)                               # first use of the objects
+        if it % 2:
+            x[1] = MultiVector.fromkeysvalues(alg, ks, [float(rng.randint(5, 9))] + [float(rng.randint(1, 3)) for _ in ks[1:]])
+        else:
+            x.values()[0][2] = 11.0
+        got = run_ops(alg, x, y)                         # the same objects after the in-place update
+        cur = [np.asarray(v, dtype=float).copy() for v in x.values()]
+        alg2 = algs.make_impl(spec)
+        x2 = MultiVector.fromkeysvalues(alg2, ks, np.array(cur)); y2 = MultiVector.fromkeysvalues(alg2, ks, np.array([np.asarray(v, dtype=float) for v in y.values()]))
+        want = run_ops(alg2, x2, y2)
+        for op in ops:
+            R.count('history=reused-object'); R.count('call=' + op); R.case(('reused', it, op), True)
+            g, w = got[op], want[op]
+            ok = g[0] == w[0] and (g[0] == 'err' or (len(g[1]) == len(w[1]) and all(k1 == k2 and np.allclose(v1, v2, rtol=1e-9, atol=1e-9, equal_nan=True) for (k1, v1), (k2, v2) in zip(g[1], w[1]))))
+            if not ok:
+                R.violation({'clause': 'history', 'via': 'reused-object'},
+                            {'algebra': spec, 'reused': True, 'op': op, 'keys': list(ks), 'got': str(g)[:300], 'fresh': str(w)[:300]},
+                            f'{op} on a multivector object that was used before and then updated in place (keys {ks}, {"ndarray" if arr else "list"}-backed) in Algebra({algs.describe(spec)}) '
+                            f'returned {str(g)[:200]}, fresh operands with the same current values give {str(w)[:200]}')
+
+
+def symbolic_calls(R, rng, tier):
+    """Calling symbolic multivectors (substitution of values) on one algebra object, with and without a wrapper: two
+    different multivectors on the same blades, called in turn, each evaluate their own coefficients."""
+    import sympy
+    for it in range(6 if tier == 'quick' else 60):
+        spec = {'sig': [rng.choice((1, -1, 1)) for _ in range(2)]}
+        S = Session(spec, it % 2 == 0)
+        alg = S.alg
+        t = sympy.Symbol('t')
+        ks = rng.sample([1, 2, 3], 2)
+        a = alg.multivector(keys=tuple(ks), values=[t * rng.randint(1, 4), t ** 2 + rng.randint(1, 3)])
+        b = alg.multivector(keys=tuple(ks), values=[rng.randint(2, 5) * t + 1, rng.randint(2, 4) * t])
+        tv = rng.randint(2, 5)
+        want = {'a': [float(v.subs(t, tv)) for v in a.values()], 'b': [float(v.subs(t, tv)) for v in b.values()]}
+        for name, mv_ in (('a', a), ('b', b), ('a', a)):
+            R.count('history=symbolic-call'); R.case(('symcall', it, name), True)
+            try:
+                r = mv_(t=tv)
+                got = [float(v) for v in r.values()]
+            except Exception as e:  # noqa
+                got = f'{type(e).__name__}: {e}'
+            if got != want[name]:
+                R.violation({'clause': 'history', 'via': 'symbolic-call'},
+                            {'algebra': spec, 'wrapper': it % 2 == 0, 'keys': ks, 'got': str(got), 'fresh': str(want[name])},
+                            f'calling a symbolic multivector (keys {ks}) after another symbolic multivector on the same blades was called '
+                            f'(wrapper={"set" if it % 2 == 0 else "None"}) returned {got}, its own coefficients evaluate to {want[name]}')
 
 
 def replay(R, rec):
